@@ -129,6 +129,10 @@ Theorem C13_move_dupevent_refuted :
     o_events o = Some [DListener 1 0] /\ o_events o' = Some [DListener 1 1].
 Proof. exact move_dupevent_refuted. Qed.
 
+(* stated, not asserted: the s-expression encoder of parsed items is injective, which would turn the
+   right-hand side of C13_oracle_same_items into ma = mb (a nested induction over ty / ex / tk, not done) *)
+Definition C13_sx_item_injective_full_statement : Prop := forall a b : item, sx_item a = sx_item b -> a = b.
+
 (* ---- the former refutation witness of order independence now satisfies it ---- *)
 Example C13_ex_two_cmds : gen false (w_of [2; 1]) p_two_cmds = gen false (w_of [1; 2]) p_two_cmds
   /\ option_map o_commands (gen false (w_of [2; 1]) p_two_cmds) = Some [DWrapper 1; DWrapper 2].
